@@ -1882,3 +1882,52 @@ pub fn lane_flood(seed: u64) -> Vec<Scenario> {
     }
     out
 }
+
+/// C20: the exit status says the same whichever renderer prints the report - also for output
+/// that is not text
+pub fn lane_renderers(seed: u64) -> Vec<Scenario> {
+    let mut out = vec![];
+    let mut g = G::new(seed ^ 0x4e4d);
+    for renderer in ["diff", "yaml", "pretty"] {
+        for what in ["invalid-utf8", "controls", "plain", "all-pass", "skip", "wrong-code"] {
+            for format in [Format::Md, Format::Cram] {
+                let mut sim = base_sim(g.rng.next_u64());
+                let mut t1 = g.test(&Plan::new(Fate::Pass), &mut sim.programs);
+                let mut t2 = g.test(&Plan::new(if what == "all-pass" { Fate::Pass } else { Fate::WrongOutput }), &mut sim.programs);
+                let tag = t2.nonce[..6].to_string();
+                let bytes: Option<Vec<u8>> = match what {
+                    "invalid-utf8" => Some([b"x\xffy ", tag.as_bytes(), b"\n\xc3\x28 tail\n"].concat()),
+                    "controls" => Some([b"a\tb\x07 ", tag.as_bytes(), b"\x1b[1mbold\x1b[0m\r\n"].concat()),
+                    _ => None,
+                };
+                if let Some(b) = bytes {
+                    sim.programs.insert(t2.nonce.clone(), vec![Op::Out { fd: 1, data: Bytes(b.clone()) }, Op::Out { fd: 2, data: Bytes(b) }, Op::Status { code: 0 }]);
+                }
+                if what == "skip" {
+                    sim.programs.insert(t1.nonce.clone(), vec![Op::Status { code: 80 }]);
+                    t1.expectations = vec![];
+                }
+                if what == "wrong-code" {
+                    sim.programs.insert(t2.nonce.clone(), vec![Op::Status { code: 3 }]);
+                    t2.expectations = vec![];
+                }
+                let t3 = g.test(&Plan::new(Fate::Pass), &mut sim.programs);
+                let ext = if format == Format::Cram { "t" } else { "md" };
+                let d = doc(&format!("rnd/doc.{}", ext), format, vec![t1, t2, t3]);
+                let mut sc = Scenario {
+                    lane: format!("renderers/{}/{}/{}", renderer, what, ext),
+                    tier: Tier::Cli,
+                    script_mode: false,
+                    docs: vec![d],
+                    cli: Cli { renderer: Some(renderer.into()), ..Default::default() },
+                    sim,
+                    pretty: true,
+                    check: vec!["C20".into()],
+                };
+                fill_expectations(&mut sc, &mut g);
+                out.push(sc);
+            }
+        }
+    }
+    out
+}
